@@ -218,6 +218,24 @@ static inline Cls<A::CanPayloadBase::Header> canHeader()
     return c;
 }
 
+// Every payload class also carries the two fields of its base class, the payload's TYPE (message type, raw payload type byte): public,
+// writable, without a place in the raw image. Writing them changes no other field and no raw byte, and no other write changes them.
+template <class T>
+static inline void addPayloadBase(Cls<T>& c)
+{
+    Field<T> rt;
+    rt.name = "RawPayloadType"; rt.bits = 8; rt.off = -1; rt.width = 0; rt.shift = 0;
+    rt.set = [](T& o, uint64_t v) { o.setRawPayloadType((uint8_t) v); };
+    rt.get = [](const T& o) { return (uint64_t) o.getRawPayloadType(); };
+    c.fields.push_back(rt);
+    Field<T> mt;
+    mt.name = "MessageType"; mt.bits = 8; mt.off = -1; mt.width = 0; mt.shift = 0;
+    mt.set = [](T& o, uint64_t v) { o.setMessageType(static_cast<A::CmpHeader::MessageType>(v)); };
+    mt.get = [](const T& o) { return (uint64_t) o.getMessageType(); };
+    mt.values = {0, 1, 2, 3, 0xFF};
+    c.fields.push_back(mt);
+}
+
 static inline Cls<A::CanPayload> canPayload()
 {
     using T = A::CanPayload;
@@ -236,6 +254,7 @@ static inline Cls<A::CanPayload> canPayload()
     };
     addFlags<T, A::CanPayloadBase::Flags>(c, kCanFlags);
     c.reserved = {{2, 0xFF}, {3, 0xFF}, {8, 0x7F}, {9, 0xFF}, {10, 0x80}};   // CAN: crc word bits 30..15
+    addPayloadBase<T>(c);
     return c;
 }
 
@@ -260,6 +279,7 @@ static inline Cls<A::CanFdPayload> canFdPayload()
     };
     addFlags<T, A::CanPayloadBase::Flags>(c, kCanFlags);
     c.reserved = {{2, 0xFF}, {3, 0xFF}, {8, 0x3E}};
+    addPayloadBase<T>(c);
     return c;
 }
 
@@ -295,6 +315,7 @@ static inline Cls<A::LinPayload> linPayload()
     };
     addFlags<T, A::LinPayload::Flags>(c, kLinFlags);
     c.reserved = {{2, 0xFF}, {3, 0xFF}, {5, 0xFF}};
+    addPayloadBase<T>(c);
     return c;
 }
 
@@ -324,6 +345,7 @@ static inline Cls<A::EthernetPayload> ethPayload()
     };
     addFlags<T, A::EthernetPayload::Flags>(c, kEthFlags);
     c.reserved = {{2, 0xFF}, {3, 0xFF}};
+    addPayloadBase<T>(c);
     return c;
 }
 
@@ -367,6 +389,7 @@ static inline Cls<A::AnalogPayload> analogPayload()
     c.name = "AnalogPayload"; c.hdrSize = 16; c.hasData = true;
     c.dflt = [] { return T(); }; c.fromRaw = payloadFromRaw<T>(); c.raw = payloadRaw<T>(); c.size = [](const T& t) { return t.getLength(); };
     analogFields(c);
+    addPayloadBase<T>(c);
     return c;
 }
 
@@ -400,6 +423,7 @@ static inline Cls<A::CaptureModulePayload> cmPayload()
     c.name = "CaptureModulePayload"; c.hdrSize = 36;   // header 26 + five empty length fields
     c.dflt = [] { return T(); }; c.fromRaw = payloadFromRaw<T>(); c.raw = payloadRaw<T>(); c.size = [](const T& t) { return t.getLength(); };
     cmFields(c);
+    addPayloadBase<T>(c);
     return c;
 }
 
@@ -438,6 +462,7 @@ static inline Cls<A::InterfacePayload> ifPayload()
     c.name = "InterfacePayload"; c.hdrSize = 40;   // header 36 + two empty length fields
     c.dflt = [] { return T(); }; c.fromRaw = payloadFromRaw<T>(); c.raw = payloadRaw<T>(); c.size = [](const T& t) { return t.getLength(); };
     ifFields(c);
+    addPayloadBase<T>(c);
     return c;
 }
 
